@@ -1,7 +1,7 @@
 """C07 - pairwise-distance chunks partition the work and assemble to the same matrix."""
 import ast
 
-from engine.astutil import U, calls, kwargs, single_defs, inline, walk_own, call_name, attr_tail, returns, enclosing_map, names_in, arg
+from engine.astutil import stmt_conditions, U, calls, kwargs, single_defs, inline, walk_own, call_name, attr_tail, returns, enclosing_map, names_in, arg
 from engine.cfg import CFG
 from engine.norm import Norm, Poly, parse_expr
 from engine.repo import AnalysisError
@@ -26,8 +26,9 @@ RULES = {
     "R5": "metric: mean of squares of (T(a) - T(b)) with the same optional transform T",
     "R6": "compute loop: add_value(i, j, d(pred_i, pred_j)) on the same data; CLI loads theta files in argument order",
     "R7": "persistence: writer/reader agreement incl. [:current_index] slices; current_index = number of stored values",
+    "R8": "growable storage: the growth step used by _expand_storage is never a caller-supplied 0 (empty chunks are loaded and combined with capacity 0)",
 }
-MIN = {"R1": 7, "R2": 2, "R3": 4, "R4": 3, "R5": 2, "R6": 3, "R7": 4}
+MIN = {"R1": 7, "R2": 2, "R3": 4, "R4": 3, "R5": 2, "R6": 3, "R7": 4, "R8": 1}
 TRUSTED = ["integer division identity N = C*(N//C) + N%C with 0 <= N%C < C", "itertools.islice / deque consume semantics"]
 TECHNIQUE = "symbolic summarisation of straight-line integer code into polynomial normal forms; guard dominance; writer/reader agreement"
 LEVEL_TEXT = ("Disjointness, coverage and balance of the chunks are exactly the affine identities discharged here, valid for "
@@ -148,7 +149,17 @@ def r1(ctx):
         if isinstance(st, ast.Assign) and isinstance(st.value, ast.Call) and U(st.value.func) == "lower_triangular_indices":
             cut = i
             break
-    arith = desugar_conditionals([st for st in body[:cut] if not isinstance(st, ast.Return)])
+    class _MinMax(ast.NodeTransformer):
+        """min(a, b) / max(a, b) over plain names are the conditional values a if a < b else b / b if a < b else a"""
+        def visit_Call(self, c):
+            self.generic_visit(c)
+            if isinstance(c.func, ast.Name) and c.func.id in ("min", "max") and len(c.args) == 2 and not c.keywords and all(isinstance(a, (ast.Name, ast.Constant)) for a in c.args):
+                a, b = c.args
+                t = ast.Compare(left=a, ops=[ast.Lt()], comparators=[b])
+                return ast.copy_location(ast.IfExp(test=t, body=a if c.func.id == "min" else b, orelse=b if c.func.id == "min" else a), c)
+            return c
+    import copy as _copy
+    arith = desugar_conditionals([ast.fix_missing_locations(_MinMax().visit(_copy.deepcopy(st))) for st in body[:cut] if not isinstance(st, ast.Return)])
     rest = body[cut:]
     ret = returns(f.node)
     ctx.need(len(ret) == 1, f"{f.site()}: single return not found")
@@ -686,32 +697,165 @@ def r7(ctx):
     sz = W.get(("ds", "size"))
     lf = ctx.fn(f"{cq}.load")
     env = single_defs(lf.node)
-    reads = {kx: common.h5_read_key(v) for kx, v in env.items()}
-    rk = {v[1]: kx for kx, v in reads.items() if v}
-    ok = all(k in rk for k in want) and "size" in rk and all(reads[rk[k]][3] == "whole" for k in want)
+
+    def rd(e):
+        """(key, how) of the dataset an expression reads, with locals read through"""
+        r = common.h5_read_key(inline(e, env))
+        return (r[1], r[3]) if r and r[0] == "ds" and r[2] is None else None
+
+    def count_of(e):
+        """key whose whole length an expression is (len(<whole read>), locals read through)"""
+        e = inline(e, env)
+        if isinstance(e, ast.Call) and call_name(e) == "len" and len(e.args) == 1:
+            r = rd(e.args[0])
+            return r[0] if r and r[1] == "whole" else None
+        return None
+    inst_names = [k for k, v in env.items() if isinstance(v, ast.Call) and U(v.func) in ("cls", "ChunkedDistanceMatrix")]
+    ok = len(inst_names) == 1
     if ok:
-        # stores into the new instance, with count locals (n = len(values)) read through
-        cenv = {k: v for k, v in env.items() if isinstance(v, ast.Call) and call_name(v) == "len"}
-        inst_names = [k for k, v in env.items() if isinstance(v, ast.Call) and U(v.func) in ("cls", "ChunkedDistanceMatrix")]
-        ok = len(inst_names) == 1
-        if ok:
-            inst = inst_names[0]
-            ctor = env[inst]
-            n_expr = f"len({rk['values']})"
-            stores = {}
-            for n in walk_own(lf.node):
-                if isinstance(n, ast.Assign) and len(n.targets) == 1:
-                    t = n.targets[0]
-                    if isinstance(t, ast.Subscript) and isinstance(t.value, ast.Attribute) and U(t.value.value) == inst:
-                        stores[t.value.attr] = (U(inline(t.slice, cenv)).replace(" ", ""), U(n.value))
-                    elif isinstance(t, ast.Attribute) and U(t.value) == inst:
-                        stores[t.attr] = (None, U(inline(n.value, cenv)).replace(" ", ""))
-            ok = all(stores.get(k) == (f":{n_expr}", rk[k]) for k in want) and stores.get("current_index") == (None, n_expr)
-            ck = kwargs(ctor).get("chunk_size")
-            ok = ok and sz is not None and "self.size" in U(sz) and ctor.args and U(ctor.args[0]) == rk["size"] and ck is not None and U(inline(ck, cenv)).replace(" ", "") == n_expr
+        inst = inst_names[0]
+        ctor = env[inst]
+        stores, count = {}, None
+        for n in walk_own(lf.node):
+            if isinstance(n, ast.Assign) and len(n.targets) == 1:
+                t = n.targets[0]
+                if isinstance(t, ast.Subscript) and isinstance(t.value, ast.Attribute) and U(t.value.value) == inst and isinstance(t.slice, ast.Slice) \
+                        and t.slice.lower is None and t.slice.step is None and t.slice.upper is not None:
+                    stores[t.value.attr] = (count_of(t.slice.upper), rd(n.value))
+                elif isinstance(t, ast.Attribute) and U(t.value) == inst and t.attr == "current_index":
+                    count = count_of(n.value)
+        ck = kwargs(ctor).get("chunk_size")
+        ok = all(stores.get(k) is not None and stores[k][0] in want and stores[k][1] == (k, "whole") for k in want) and count in want \
+            and ck is not None and count_of(ck) in want and sz is not None and "self.size" in U(sz) and bool(ctor.args) and rd(ctor.args[0]) == ("size", ("elem", 0))
     ctx.check("R7", f"{lf.site()}::restores-prefix-and-count", ok,
               "load reads all three columns whole into the prefix of fresh storage and sets current_index to their length",
               "the loader does not restore rows / cols / values into matching slots with current_index = number of stored values")
+
+
+def _zero3(e, zero_names):
+    """three-valued `is this expression 0 / falsy` given that the names / paths in zero_names are 0: True, False or None"""
+    if isinstance(e, ast.Constant):
+        return None if e.value is None else (not bool(e.value))
+    if isinstance(e, (ast.Name, ast.Attribute)) and U(e) in zero_names:
+        return True
+    if isinstance(e, ast.Call) and call_name(e) == "max" and not e.keywords:
+        zs = [_zero3(a, zero_names) for a in e.args]
+        if any(z is False for z in zs) and all(isinstance(a, ast.Constant) or _zero3(a, zero_names) is True for a in e.args):
+            return False                                   # max(0, positive constant)
+        return True if zs and all(z is True for z in zs) else None
+    if isinstance(e, ast.Call) and call_name(e) == "int" and len(e.args) == 1:
+        return _zero3(e.args[0], zero_names)
+    if isinstance(e, ast.BinOp) and isinstance(e.op, ast.Mult):
+        zs = [_zero3(e.left, zero_names), _zero3(e.right, zero_names)]
+        return True if any(z is True for z in zs) else (False if all(z is False for z in zs) else None)
+    if isinstance(e, ast.BinOp) and isinstance(e.op, ast.Add):
+        zl, zr = _zero3(e.left, zero_names), _zero3(e.right, zero_names)
+        if zl is True:
+            return zr
+        if zr is True:
+            return zl
+        return None
+    if isinstance(e, ast.BoolOp) and isinstance(e.op, ast.Or):
+        for v in e.values[:-1]:
+            z = _zero3(v, zero_names)
+            if z is not True:
+                return False if z is False else None
+        return _zero3(e.values[-1], zero_names)
+    if isinstance(e, ast.IfExp):
+        t = _truth3(e.test, zero_names)
+        if t is None:
+            a, b = _zero3(e.body, zero_names), _zero3(e.orelse, zero_names)
+            return a if a == b else None
+        return _zero3(e.body if t else e.orelse, zero_names)
+    return None
+
+
+def _truth3(t, zero_names):
+    """three-valued truth of a test under `names in zero_names are the integer 0`"""
+    if isinstance(t, ast.UnaryOp) and isinstance(t.op, ast.Not):
+        v = _truth3(t.operand, zero_names)
+        return None if v is None else not v
+    if isinstance(t, ast.BoolOp):
+        vs = [_truth3(v, zero_names) for v in t.values]
+        if isinstance(t.op, ast.And):
+            return False if any(v is False for v in vs) else (True if all(v is True for v in vs) else None)
+        return True if any(v is True for v in vs) else (False if all(v is False for v in vs) else None)
+    if isinstance(t, ast.Compare) and len(t.ops) == 1:
+        l, r, op = t.left, t.comparators[0], t.ops[0]
+        if isinstance(op, (ast.Is, ast.IsNot)) and isinstance(r, ast.Constant) and r.value is None and _zero3(l, zero_names) is True:
+            return isinstance(op, ast.IsNot)                # 0 is not None
+        zl = _zero3(l, zero_names)
+        if zl is True and isinstance(r, ast.Constant) and isinstance(r.value, (int, float)) and not isinstance(r.value, bool):
+            c = r.value
+            return {ast.Eq: 0 == c, ast.NotEq: 0 != c, ast.Lt: 0 < c, ast.LtE: 0 <= c, ast.Gt: 0 > c, ast.GtE: 0 >= c}.get(type(op))
+        zr = _zero3(r, zero_names)
+        if zr is True and isinstance(l, ast.Constant) and isinstance(l.value, (int, float)) and not isinstance(l.value, bool):
+            c = l.value
+            return {ast.Eq: c == 0, ast.NotEq: c != 0, ast.Lt: c < 0, ast.LtE: c <= 0, ast.Gt: c > 0, ast.GtE: c >= 0}.get(type(op))
+        return None
+    z = _zero3(t, zero_names)
+    return None if z is None else not z
+
+
+def r8(ctx):
+    """ChunkedDistanceMatrix grows by `self.chunk_size` slots whenever it is full.  load() of an empty chunk file and
+    combine() on an accumulator without entries construct the matrix with a requested capacity of 0; if that 0 were
+    stored as the growth step, the first add_value afterwards would write past the (unchanged) storage.  Necessary
+    condition: under `requested capacity == 0`, no feasible path of __init__ stores a zero growth step taken from the
+    request (or the growth amount itself is protected, e.g. max(step, 1))."""
+    cq = f"batchie.{DC}.ChunkedDistanceMatrix"
+    ef = ctx.fn(f"{cq}._expand_storage")
+    grow = set()
+    for c in calls(ef.node):
+        if (call_name(c) or "").split(".")[-1] in ("zeros", "empty", "full") and c.args:
+            grow.add(U(c.args[0]))
+    ctx.need(len(grow) == 1, f"r8: {ef.site()}: the growth amount of the storage is not one expression ({sorted(grow)})")
+    amount = ast.parse(grow.pop(), mode="eval").body
+    attrs = sorted({n.attr for n in ast.walk(amount) if isinstance(n, ast.Attribute) and U(n.value) == "self"})
+    ctx.need(len(attrs) == 1, f"r8: {ef.site()}: growth amount `{U(amount)}` does not read exactly one attribute")
+    step = attrs[0]
+    z = _zero3(amount, {f"self.{step}"})
+    if z is False:
+        ctx.ok("R8", f"{ef.site()}::growth-amount", f"the storage grows by `{U(amount)}`, which is positive even for a zero step")
+        return
+    ctx.need(z is True, f"r8: {ef.site()}: growth amount `{U(amount)}` is not in a recognised form")
+    init = ctx.fn(f"{cq}.__init__")
+    params = {a.arg for a in init.node.args.args + init.node.args.kwonlyargs} - {"self"}
+    conds = stmt_conditions(init.node.body)
+    n = 0
+    for st in walk_own(init.node):
+        if not (isinstance(st, ast.Assign) and len(st.targets) == 1 and U(st.targets[0]) == f"self.{step}"):
+            continue
+        def direct(e):
+            if isinstance(e, ast.Name):
+                return {e.id}
+            if isinstance(e, ast.IfExp):
+                return direct(e.body) | direct(e.orelse)
+            if isinstance(e, ast.BoolOp):
+                return set().union(*[direct(v) for v in e.values])
+            if isinstance(e, ast.Call) and call_name(e) in ("int", "max") and not e.keywords:
+                return set().union(*[direct(a) for a in e.args])
+            return set()
+        used = sorted(params & direct(st.value))
+        if not used:
+            continue                                        # a computed layout length: never grown beyond (R1/R2)
+        n += 1
+        ctx.need(id(st) in conds, f"r8: {init.site()}: store of the growth step is not on a plain path of __init__")
+        zero = set(used)
+        feas = [_truth3(t, zero) if pol else (None if _truth3(t, zero) is None else not _truth3(t, zero)) for t, pol in conds[id(st)]]
+        if any(f is False for f in feas):
+            ctx.ok("R8", f"{init.site()}::growth-step<-{'/'.join(used)}", f"`self.{step} = {U(st.value)}` is not reached with a requested capacity of 0")
+            continue
+        zv = _zero3(st.value, zero)
+        if zv is False:
+            ctx.ok("R8", f"{init.site()}::growth-step<-{'/'.join(used)}", f"`{U(st.value)}` is positive for a requested capacity of 0")
+            continue
+        ctx.need(zv is True and all(f is True for f in feas),
+                 f"r8: {init.site()}: cannot decide whether `self.{step} = {U(st.value)}` is reached / zero for a requested capacity of 0")
+        ctx.bad("R8", f"{init.site()}::growth-step<-{'/'.join(used)}",
+                f"a requested capacity of 0 (load of an empty chunk, combine on an empty accumulator) is stored as the growth step "
+                f"`self.{step}`: the storage then never grows and the next add_value fails - empty chunks first break the assembly")
+    ctx.need(n >= 1, f"r8: {init.site()}: no store of the growth step `self.{step}` from a constructor argument")
 
 
 def r_bsearch(ctx):
@@ -721,7 +865,7 @@ def r_bsearch(ctx):
         ctx.ok("R4", "binary-search::none", "no np.searchsorted in the anchored modules")
 
 
-RULE_FUNCS = [r1, r2, r3, r4, r5, r6, r7, r_bsearch]
+RULE_FUNCS = [r1, r2, r3, r4, r5, r6, r7, r8, r_bsearch]
 
 
 def run(ctx):
@@ -746,5 +890,6 @@ WITNESSES = [
     ("value of (i, i)", "batchie.distance_calculation", _rep("        j_pred = sample_j.predict_viability(data)", "        j_pred = sample_i.predict_viability(data)"), ["R6"]),
     ("arm condition <=", "batchie.distance_calculation", _rep("    if chunk_index < remainder:", "    if chunk_index <= remainder:"), ["R1"]),
     ("completeness refusal removed", "batchie.distance_calculation", _rep("        if not self.is_complete():\n            raise ValueError(\"The distance matrix is not complete\")\n", ""), ["R3"]),
+    ("zero capacity kept as growth step", "batchie.distance_calculation", _rep("        if chunk_size:\n", "        if chunk_size is not None:\n"), ["R8"]),
     ("values saved unsliced", "batchie.distance_calculation", _rep('"values", data=self.values[: self.current_index], compression="gzip"', '"values", data=self.values, compression="gzip"'), ["R7"]),
 ]
